@@ -39,6 +39,10 @@ type epochIn struct {
 	First  bool // no earlier process has used the path
 	State  c07.State
 	Ops    []*c07.Op
+	// stream burst (burst.go): the finding-key back-end name of the stream, and the concurrent
+	// readers that are the first accesses this process makes to the store
+	Backend string
+	Burst   *burstPlan
 }
 
 type failOut struct {
@@ -95,11 +99,15 @@ func epochMain(path string) {
 	open := func() (storage.Store, error) { return sut.NewStore("file", sc, extension.NewHost()) }
 	st, err := open()
 	var e *c07.Exec
+	backend := "file-restart"
+	if in.Backend != "" {
+		backend = in.Backend
+	}
 	if err != nil {
-		e = c07.NewExec("C10", "file-restart", in.Desc, nil, in.Cap, 0, in.Boxes)
-		e.Fails = append(e.Fails, c07.Fail{Key: "C10:file-restart:open-error", What: fmt.Sprintf("file.New on the existing path failed: %v", err)})
+		e = c07.NewExec("C10", backend, in.Desc, nil, in.Cap, 0, in.Boxes)
+		e.Fails = append(e.Fails, c07.Fail{Key: "C10:" + backend + ":open-error", What: fmt.Sprintf("file.New on the existing path failed: %v", err)})
 	} else {
-		e = c07.NewExec("C10", "file-restart", in.Desc, st, in.Cap, 0, in.Boxes)
+		e = c07.NewExec("C10", backend, in.Desc, st, in.Cap, 0, in.Boxes)
 		e.Open = open
 		e.ScanCfg = sc
 		e.QuietReopen = true
@@ -112,7 +120,12 @@ func epochMain(path string) {
 			e.Counts["messages_across_restart"] += int64(e.M.Count())
 			e.NoteReopen("restart")
 			e.Trace = append(e.Trace, "-- new process --")
-			if len(in.Ops) > 0 && (len(in.Ops)+len(in.Boxes))%3 == 0 {
+			if in.Burst != nil {
+				// the first accesses of this process are concurrent readers (burst.go)
+				e.ContentEvery = 8
+				burstRound(e, in.Burst)
+				e.Counts["writes_after_first_reads"] += int64(len(in.Ops))
+			} else if len(in.Ops) > 0 && (len(in.Ops)+len(in.Boxes))%3 == 0 {
 				// a third of the restarted processes go straight on with the history
 				e.Counts["restarts_without_immediate_read"]++
 			} else if e.VerifyAll("after-restart", "", true) {
